@@ -98,10 +98,14 @@ def run(ctx):
                 "(reflink also under an emulated FICLONE so the code after verification is reached). A retrieval is "
                 "non-trivial when the damage really changed the file's bytes. Size sweep: every size 2^k, 3*2^k and neighbours "
                 "(k <= 17 quick, 21 thorough), undamaged and damaged at the last/first byte, one byte short, one byte long, "
-                "through every checked entry point, also by keys whose index entry (raw index insert) records no size or a wrong one. distinct = (entry point, mode, damage "
+                "through every checked entry point, also by keys whose index entry (raw index insert) records no size or a wrong one. "
+                "Mid-call: read, read_hash and Reader (by key / address) run as a process next to a second process that flips one bit "
+                "of the content file in place; the ptrace scheduler enumerates their interleavings depth-first (capped, then random "
+                "schedules): Ok only with exactly the stored bytes. distinct = (entry point, mode, damage "
                 "class, position, algo, size)")
     ctx.assumptions = ["no reflink-capable filesystem: ioctl(FICLONE) is emulated by the supervisor",
-                       "damage is applied between calls, never during one (concurrent mutation is C07)"]
+                       "damage is applied between calls; during a call only for read/read_hash/Reader (one bit flipped in place "
+                       "by a second process at every system-call boundary) - the extraction entry points verify and then act by path"]
     ctx.exhaustive = True
     base = ctx.new_dir("base")        # cache and destinations on one file system (hard links!)
     cache = os.path.join(base, "cache")
@@ -225,6 +229,10 @@ def run(ctx):
     # the content then damaged in place, a checked extraction onto it: Ok only with the stored bytes (shared with C18)
     from . import c18
     c18.repeat_after_damage(ctx, rng, cache, destroot, modes)
+    # the content file modified in place WHILE an in-memory checked retrieval runs (two processes under the system-call
+    # scheduler, interleavings enumerated): Ok only with the stored bytes
+    from . import c01_midcall
+    c01_midcall.run(ctx, rng, modes)
     for d in fic.values():
         d.close()
     ctx.extra["ok_on_trivial_damage"] = n_ok_trivial
